@@ -21,7 +21,7 @@ SPEC = dict(
          "group the classifier returned carries the model pKa/charge configured for its type. The census model is trace-driven for "
          "the bond-derived inputs (bonded-oxygen count, disulfide flag).",
     technique="Lean 4 proof (simulation between key choices, case rules, table obligations by decide) + differential correspondence + independent spec evaluation",
-    lean=["Propka.Props.C01"],
+    lean=["Propka.Props.C01", "Propka.Props.C01Coupling"],
     rule="test files and library multi-chain structures with every TER spelling / no TER, OXT present-absent-not last, alt-loc, "
          "HETATM first, negative and insertion-coded numbering incl. twins, numbering restarting in a second chain, ions, ligands, x "
          "{no option, -c, -i}; non-trivial = a structure with at least two ionizable sites",
@@ -134,8 +134,11 @@ def census_problems(o):
 SUMMARY_RE = re.compile(r"^   (.{9}) (.{8}) (.{10}) ")
 
 
-def summary_problems(o):
+def summary_problems(o, dropped=None):
+    """problems of the summary section; `dropped` collects the protein sites that exist in the results but are left out of the
+    summary (and of the determinant table) because they were penalised as members of a covalently coupled system"""
     probs = []
+    dropped = dropped if dropped is not None else []
     lines = o.text.split("\n")
     try:
         i = next(k for k, l in enumerate(lines) if l.startswith("SUMMARY OF THIS PREDICTION"))
@@ -149,6 +152,10 @@ def summary_problems(o):
         if m:
             rows.append((m.group(1), float(m.group(2)), float(m.group(3))))
     rep = o.reported("AVR")
+    if o.mol.version.parameters.remove_penalised_group:
+        for g in rep:
+            if g["penalised"] and g["atom_type"] == "atom":
+                dropped.append((g["label"], g["penalised"], g["type"]))
     want = sorted((("%9s" % g["label"]), round(g["pka"], 2), round(g["model_pka"], 2)) for g in rep if not (g["penalised"] and o.mol.version.parameters.remove_penalised_group))
     have = sorted((a, round(b, 2), round(c, 2)) for a, b, c in rows)
     if [w[0] for w in want] != [h[0] for h in have]:
@@ -184,6 +191,11 @@ def twin_variants(rnd, lines):
 def gen_inputs(ctx):
     rnd = ctx.rng
     out = []
+    # witnesses of listed findings run first, so that a listed finding is reported on every run while it persists
+    import json
+    for f in sorted(common.CORPUS.glob("C01-*.json")):
+        r = json.loads(f.read_text())["replay"]
+        out.append(("corpus:" + f.name, r["pdb"], r.get("args", [])))
     for name, t in pdbgen.test_files(["1HPX", "conf-alt-AB", "conf-model-missing-atoms", "sample-issue-140", "1FTJ-Chain-A"] if ctx.quick() else None):
         out.append((name, t, []))
     for i in range(40 if ctx.quick() else 500):
@@ -211,7 +223,7 @@ def run(ctx):
     from propka.parameters import Parameters
     from propka.input import read_parameter_file
     ignore = read_parameter_file("propka.cfg", Parameters()).ignore_residues
-    tag_bad, census_bad, summary_bad = [], [], []
+    tag_bad, census_bad, summary_bad, drop_bad = [], [], [], []
     reqs, reals = [], []
     creqs, creals = [], []
     for name, text, args in inputs:
@@ -236,9 +248,14 @@ def run(ctx):
         ctx.count("runs" + (" with -c" if chains else " with -i" if args else ""))
         if probs:
             census_bad.append((name, args, probs[:4], text))
-        sp = summary_problems(o)
+        dropped = []
+        sp = summary_problems(o, dropped)
         if sp:
             summary_bad.append((name, args, sp[:3], text))
+        for lab, partner, typ in dropped:
+            # the amino group and the side chain of one N-terminal residue form a "covalently coupled system" (empty SYBYL types)
+            same_res = lab[3:] == partner[3:] and ("N+" in (lab[:3].strip(), partner[:3].strip()))
+            drop_bad.append((name, args, lab, partner, same_res, text))
         # census model, trace-driven
         to = "-"
         if o.mol.options.titrate_only is not None:
@@ -276,6 +293,16 @@ def run(ctx):
     for name, args, probs, text in summary_bad[:2]:
         ctx.violate("summary:" + name, "%s %r: %s" % (name, args, "; ".join(probs)), dict(pdb=text, args=args, problems=probs))
     ctx.oblige("spec: the .pka summary lists every reported group exactly once with pKa and model pKa", not summary_bad, str([(s[0], s[2][:1]) for s in summary_bad[:2]]))
+    unlisted = []
+    for b in drop_bad:
+        sig = "D20:nterm-side-chain-coupled-to-its-amino-group" if b[4] else "summary-drop:" + b[2].strip()
+        if sig not in ctx.known:
+            unlisted.append(b)
+        ctx.violate(sig, "%s %r: protein site %s is in the results but missing from the summary and the determinant table (penalised in favour of %s)" % (b[0], b[1], b[2], b[3]),
+                    dict(pdb=b[5], args=b[1], missing=b[2], coupled_to=b[3]))
+    ctx.coverage["known_finding_instances"] = len(drop_bad) - len(unlisted)
+    ctx.oblige("spec: every protein site of the results has its row in the summary (apart from listed known findings)", not unlisted, str([(b[0], b[2], b[3]) for b in unlisted[:2]]))
+    coupling_family(ctx)
     if ctx.driver_ok:
         outs = common.driver_batch(reqs)
         dis = [(inputs[k][0], r[:80], m[:80]) for k, (r, m) in enumerate(zip(reals, outs)) if r != m and not (r.startswith("err") and m.startswith("err"))]
@@ -295,6 +322,44 @@ def run(ctx):
                    not cdis, "%d disagreements, first %r" % (len(cdis), cdis[:1]))
     else:
         ctx.oblige("correspondence: parser and census models = real code", False, "driver not built")
+
+
+def coupling_family(ctx):
+    """coupling_effects driven on stub systems against the Lean model (which groups are penalised)"""
+    import types
+    from propka.conformation_container import ConformationContainer
+    from propka.group import Group
+    from propka.atom import Atom
+    rnd = ctx.rng
+    reqs, reals = [], []
+    for _ in range(150 if ctx.quick() else 3000):
+        n = rnd.randint(2, 4)
+        gs = []
+        for k in range(n):
+            a = Atom()
+            a.type, a.res_name, a.res_num, a.chain_id = 'atom', rnd.choice(["ASP", "LYS", "HIS", "N+ ", "CYS"]), rnd.randint(1, 3) if rnd.random() < 0.3 else k + 10, 'A'
+            g = Group(a)
+            g.charge = rnd.choice([1.0, -1.0])
+            g.pka_value = rnd.choice([rnd.uniform(0, 14), 7.0, 3.8])
+            g.titratable = True
+            gs.append(g)
+        for k in range(1, n):
+            gs[k].couple_covalently(gs[rnd.randrange(k)])
+        cc = ConformationContainer(name='x', parameters=types.SimpleNamespace(shared_determinants=0, remove_penalised_group=1), molecular_container=None)
+        cc.groups = gs
+        systems = list(cc.get_coupled_systems(cc.get_covalently_coupled_groups(), Group.get_covalently_coupled_groups))
+        pen = cc.coupling_effects()
+        ctx.case(key=("coupling", tuple((g.label, g.charge, g.pka_value) for g in gs)))
+        if len(systems) != 1:
+            continue
+        reqs.append("coupling pen " + ";".join("%s|%d|%d" % (g.label.encode("latin1").hex(), common.bits(g.charge), common.bits(g.pka_value)) for g in systems[0]))
+        reals.append(",".join(l.encode("latin1").hex() for l in pen) or "-")
+    if ctx.driver_ok:
+        outs = common.driver_batch(reqs)
+        dis = [(q[:80], r, m) for q, r, m in zip(reqs, reals, outs) if r != m]
+        ctx.oblige("correspondence: Lean coupling model = ConformationContainer.coupling_effects (penalised labels; %d stub systems)" % len(reqs), not dis, str(dis[:1]))
+    else:
+        ctx.oblige("correspondence: coupling model = real code", False, "driver not built")
 
 
 PROTEIN_CLASSES = {"NtermGroup", "CtermGroup", "BBNGroup", "BBCGroup", "IonGroup", "COOGroup", "HISGroup", "CYSGroup", "TYRGroup", "LYSGroup",
